@@ -692,7 +692,7 @@ pub fn run(ctx: Ctx) -> ! {
         std::process::exit(2);
     }
     // (tag, length, wall cap)
-    let plan: Vec<(&str, usize, f64)> = if ctx.quick() { vec![("full", 4, 50.0)] } else { vec![("full", 5, 1000.0)] };
+    let plan: Vec<(&str, usize, f64)> = if ctx.quick() { vec![("full", 4, 120.0)] } else { vec![("full", 5, 2400.0)] };
     let mut cov = Map::new();
     let (mut executed, mut nontrivial, mut capped) = (0, 0, false);
     let mut bounds = vec![];
@@ -710,6 +710,9 @@ pub fn run(ctx: Ctx) -> ! {
     cov.insert("traces_validated_against_impl".into(), json!(executed));
     cov.insert("bounds".into(), json!(bounds));
     cov.insert("caps_hit".into(), json!(capped));
+    let (r, x, c, n) = profile();
+    cov.insert("mean_us_per_transaction".into(), json!({"snapshot_restore": r, "execute": x, "post_checks": c, "transactions": n}));
+    println!("PROFILE mean us/tx: restore={r} execute={x} post={c} n={n}");
     ctx.finish(
         Level::ModelChecking,
         "every instruction sequence up to the bound over the alphabet is executed as one transaction on the real engine from the same snapshot; a sequence is extended only if the engine executed all its instructions (marker fee lock observed in the receipt); non-trivial = sequences whose instructions all executed (their end-of-transaction verdict and balances are compared with the multiset model)",
